@@ -25,9 +25,13 @@ Definition owning (p : rpc) : Prop := p = RHeld \/ p = RReleasing.
 Definition within (now : Z) (c : rcont) : Prop :=
   match r_until c with None => True | Some t => now < t end.
 
+(* a contender whose SET NX reply was lost may have left its token in the key *)
+Definition ghostable (p : rpc) : Prop := p = RFailed RDeadline \/ p = RDone false.
+
 Definition rcont_ok (kv : rstore) (c : rcont) : Prop :=
   (owning (r_pc c) -> within (r_now kv) c -> r_get ueqb kv tt = Some (r_tok c)) /\
-  (forall x, In x (r_kvs kv) -> rk_val x = r_tok c -> owning (r_pc c) /\ rk_exp x = r_until c) /\
+  (forall x, In x (r_kvs kv) -> rk_val x = r_tok c ->
+     (owning (r_pc c) \/ ghostable (r_pc c)) /\ rk_exp x = r_until c) /\
   r_ctx c = CtxLive.
 
 Definition rsys_ok (s : rsys) : Prop :=
@@ -79,10 +83,10 @@ Proof.
 Qed.
 
 Lemma rtry_ok : forall s i c o s',
-  rsys_ok s -> nth_error (rs_cs s) i = Some c -> ~ owning (r_pc c) ->
+  rsys_ok s -> nth_error (rs_cs s) i = Some c -> ~ owning (r_pc c) -> ~ ghostable (r_pc c) ->
   rtry s i c o = Some s' -> rsys_ok s'.
 Proof.
-  intros s i c o s' Hok Hi Hno H.
+  intros s i c o s' Hok Hi Hno Hng H.
   pose proof Hok as (Hkv & Htok & HT & Hcs).
   assert (Hlen : (i < length (rs_cs s))%nat) by (apply nth_error_Some; congruence).
   assert (Hin : In c (rs_cs s)) by (eapply nth_error_In; eauto).
@@ -91,14 +95,14 @@ Proof.
   { unfold rwith in H; inversion H; subst s'; clear H.
     apply (rsys_ok_upd_same_kv s i c); auto. unfold rcont_ok; simpl.
     split; [intros [F|F]; discriminate|]. split; auto.
-    intros x Hx Ex. destruct (C2 x Hx Ex) as [O _]. contradiction. }
+    intros x Hx Ex. destruct (C2 x Hx Ex) as [[O|Gh] _]; contradiction. }
   unfold r_setnx, r_exists in H.
   destruct (r_find ueqb (rs_kv s) tt) as [x0|] eqn:Hf.
   - (* key present: not obtained *)
     destruct o; unfold rwith in H; inversion H; subst s'; clear H;
       apply (rsys_ok_upd_same_kv s i c); auto; unfold rcont_ok; simpl;
       (split; [intros [F|F]; discriminate|]); (split; auto);
-      intros x Hx Ex; destruct (C2 x Hx Ex) as [O _]; contradiction.
+      intros x Hx Ex; destruct (C2 x Hx Ex) as [[O|Gh] _]; contradiction.
   - (* key absent: set *)
     unfold rwith in H; inversion H; subst s'; clear H.
     assert (Hempty : r_kvs (rs_kv s) = []).
@@ -121,7 +125,7 @@ Proof.
       apply nth_error_upd in Hj. destruct Hj as [[<- ->]|[Hne Hj]].
       * unfold rcont_ok; cbn [r_pc r_tok r_ttl r_until r_ctx r_in r_dead]. split; [|split; auto].
         -- intros _ _. destruct (get_one _ _ Hk) as [G _]; [rewrite Hn; exact Hlive|]. exact G.
-        -- intros x Hx Ex. rewrite Hk in Hx. destruct Hx as [<-|[]]. simpl. split; [left|]; auto.
+        -- intros x Hx Ex. rewrite Hk in Hx. destruct Hx as [<-|[]]. simpl. split; [left; left|]; auto.
       * assert (Hyin : In y (rs_cs s)) by (eapply nth_error_In; eauto).
         destruct (Hcs y Hyin) as (Y1 & Y2 & Y3).
         unfold rcont_ok. rewrite Hn. split; [|split; auto].
@@ -136,15 +140,17 @@ Lemma rcont_ok_same : forall kv c c',
 Proof. unfold rcont_ok, within. intros kv c c' -> -> -> ->. auto. Qed.
 
 Lemma rcont_ok_not_owning : forall kv c c',
-  ~ owning (r_pc c) -> ~ owning (r_pc c') -> r_tok c' = r_tok c -> r_ctx c' = r_ctx c ->
+  ~ owning (r_pc c) -> ~ owning (r_pc c') -> (ghostable (r_pc c) -> ghostable (r_pc c')) ->
+  r_tok c' = r_tok c -> r_until c' = r_until c -> r_ctx c' = r_ctx c ->
   rcont_ok kv c -> rcont_ok kv c'.
 Proof.
-  intros kv c c' Hn Hn' Et Ec (C1 & C2 & C3). unfold rcont_ok. rewrite Et, Ec.
+  intros kv c c' Hn Hn' Hg Et Eu Ec (C1 & C2 & C3). unfold rcont_ok. rewrite Et, Ec, Eu.
   split; [intros O; contradiction|]. split; auto.
-  intros x Hx Ex. destruct (C2 x Hx Ex) as [O _]. contradiction.
+  intros x Hx Ex. destruct (C2 x Hx Ex) as [[O|Gh] E]; [contradiction|]. split; auto.
 Qed.
 
 Ltac not_owning := let O := fresh in intros O; destruct O as [O|O]; simpl in O; congruence.
+Ltac not_ghost := let O := fresh in intros O; destruct O as [O|O]; simpl in O; congruence.
 
 Lemma rstep_ok : forall s l s', rsys_ok s -> rstep s l = Some s' -> rsys_ok s'.
 Proof.
@@ -165,11 +171,11 @@ Proof.
     rinv_nth H c Hc. destruct (r_pc c) eqn:Hpc; try discriminate.
     unfold rwith in H; inversion H; subst s'; clear H.
     apply (rsys_ok_upd_same_kv s i c); auto.
-    apply (rcont_ok_not_owning _ c); auto; try (rewrite Hpc); try not_owning.
+    apply (rcont_ok_not_owning _ c); auto; try (rewrite Hpc); try not_owning; try not_ghost.
     apply Hcs. eapply nth_error_In; eauto.
   - (* RTry *)
     rinv_nth H c Hc. destruct (r_pc c) eqn:Hpc; try discriminate;
-      eapply rtry_ok; eauto; rewrite Hpc; not_owning.
+      eapply rtry_ok; eauto; rewrite Hpc; first [not_owning|not_ghost].
   - (* RTimeout *)
     rinv_nth H c Hc.
     assert (Cc : rcont_ok (rs_kv s) c) by (apply Hcs; eapply nth_error_In; eauto).
@@ -192,10 +198,11 @@ Proof.
       apply (rsys_ok_upd_same_kv s i c); auto.
       destruct Cc as (C1 & C2 & C3). unfold rcont_ok, within; simpl. rewrite Hpc in *.
       split; [intros _ W; apply C1; [left; auto|exact W]|]. split; auto.
-      intros x Hx Ex. destruct (C2 x Hx Ex) as [_ E]. split; [right; auto|auto].
+      intros x Hx Ex. destruct (C2 x Hx Ex) as [_ E]. split; [left; right; auto|auto].
     + unfold rwith in H; inversion H; subst s'; clear H.
       apply (rsys_ok_upd_same_kv s i c); auto.
       apply (rcont_ok_not_owning _ c); auto; try (rewrite Hpc); try not_owning.
+      intros _. right. reflexivity.
   - (* RRelease *)
     rinv_nth H c Hc.
     assert (Hlen : (i < length (rs_cs s))%nat) by (apply nth_error_Some; congruence).
@@ -261,6 +268,54 @@ Proof.
         { unfold rkv_live. rewrite Ee. unfold within in W. destruct (r_until y); auto. apply Z.ltb_lt; auto. }
         unfold r_get, r_find; cbn [r_kvs r_now]. rewrite E. simpl. rewrite L'. simpl. rewrite L'. simpl. congruence.
       * intros x Hx Ex. apply filter_In in Hx. destruct Hx as [Hx _]. auto.
+  - (* RTryLost *)
+    rinv_nth H c Hc.
+    assert (Hlen : (i < length (rs_cs s))%nat) by (apply nth_error_Some; congruence).
+    assert (Cc : rcont_ok (rs_kv s) c) by (apply Hcs; eapply nth_error_In; eauto).
+    assert (Hpcs : r_pc c = RRetrying \/ exists o, r_pc c = RCalled o).
+    { destruct (r_pc c); try discriminate; eauto. }
+    assert (Hno : ~ owning (r_pc c)) by (destruct Hpcs as [E|[o E]]; rewrite E; not_owning).
+    assert (Hng : ~ ghostable (r_pc c)) by (destruct Hpcs as [E|[o E]]; rewrite E; not_ghost).
+    assert (H' : (let '(okb, kv') := r_setnx ueqb (rs_kv s) tt (r_tok c) (Some (r_ttl c)) in
+                  rwith s i kv' (mkR (RFailed RDeadline) (r_tok c) (r_ttl c) (r_dead c)
+                     (if okb then (if Z.ltb 0 (r_ttl c) then Some (r_now (rs_kv s) + r_ttl c) else None) else r_until c)
+                     false (r_ctx c))) = Some s').
+    { destruct Hpcs as [E|[o E]]; rewrite E in H; exact H. }
+    clear H. unfold r_setnx, r_exists in H'.
+    destruct Cc as (C1 & C2 & C3).
+    destruct (r_find ueqb (rs_kv s) tt) as [x0|] eqn:Hf.
+    + unfold rwith in H'; inversion H'; subst s'; clear H'.
+      apply (rsys_ok_upd_same_kv s i c); auto. unfold rcont_ok; simpl.
+      split; [intros [F|F]; discriminate|]. split; auto.
+      intros x Hx Ex. destruct (C2 x Hx Ex) as [[O|Gh] _]; contradiction.
+    + unfold rwith in H'; inversion H'; subst s'; clear H'.
+      assert (Hempty : r_kvs (rs_kv s) = []).
+      { destruct Hkv as [E|[x [E L]]]; auto. unfold r_find in Hf. rewrite E in Hf. simpl in Hf.
+        rewrite L in Hf. discriminate. }
+      set (e := if Z.ltb 0 (r_ttl c) then Some (r_now (rs_kv s) + r_ttl c) else None).
+      assert (Hset : r_kvs (r_set ueqb (rs_kv s) tt (r_tok c) (Some (r_ttl c))) = [mkRkv tt (r_tok c) e]
+                     /\ r_now (r_set ueqb (rs_kv s) tt (r_tok c) (Some (r_ttl c))) = r_now (rs_kv s)).
+      { unfold r_set; simpl. rewrite remove_nil. simpl. auto. }
+      destruct Hset as [Hk Hn].
+      assert (Hlive : rkv_live (r_now (rs_kv s)) (mkRkv tt (r_tok c) e) = true).
+      { unfold rkv_live; simpl. unfold e. destruct (Z.ltb 0 (r_ttl c)) eqn:T; auto.
+        apply Z.ltb_lt in T. apply Z.ltb_lt. lia. }
+      unfold rsys_ok; cbn [rs_kv rs_cs]. split; [|split; [|split]].
+      * right. eexists. split; [exact Hk|]. rewrite Hn. exact Hlive.
+      * intros j y Hj. apply nth_error_upd in Hj. destruct Hj as [[<- ->]|[_ Hj]]; simpl; auto.
+      * intros x Hx. rewrite Hk in Hx. destruct Hx as [<-|[]]. simpl.
+        eexists i, _. split; [apply nth_error_upd_same; auto|reflexivity].
+      * intros y Hy. apply In_nth_error in Hy. destruct Hy as [j Hj].
+        apply nth_error_upd in Hj. destruct Hj as [[<- ->]|[Hne Hj]].
+        -- unfold rcont_ok; cbn [r_pc r_tok r_ttl r_until r_ctx r_in r_dead]. split; [|split; auto].
+           ++ intros [F|F]; discriminate.
+           ++ intros x Hx Ex. rewrite Hk in Hx. destruct Hx as [<-|[]]. simpl. split; [right; left|]; auto.
+        -- assert (Hyin : In y (rs_cs s)) by (eapply nth_error_In; eauto).
+           destruct (Hcs y Hyin) as (Y1 & Y2 & Y3).
+           unfold rcont_ok. rewrite Hn. split; [|split; auto].
+           ++ intros O W. specialize (Y1 O W). rewrite get_empty in Y1 by auto. discriminate.
+           ++ intros x Hx Ex. rewrite Hk in Hx. destruct Hx as [<-|[]]. simpl in Ex.
+              exfalso. apply Hne. eapply tok_inj; eauto.
 Qed.
 
 Theorem rreachable_ok : forall s, reachable rstep rsys_init s -> rsys_ok s.
